@@ -1,13 +1,11 @@
-// Package c04 is the correspondence harness for property C04 (placeholder).
+// Package c04 is the correspondence harness for property C04; the machinery is shared
+// with the other response-merging properties (package merge).
 package c04
 
 import (
-	"errors"
-
 	"verifh/internal/hx"
 	"verifh/internal/lineio"
+	"verifh/merge"
 )
 
-func Run(o *hx.Opts, w *lineio.Writer) error {
-	return errors.New("C04 harness not implemented")
-}
+func Run(o *hx.Opts, w *lineio.Writer) error { return merge.Run(o, w, 4) }
